@@ -363,6 +363,41 @@ async def e2e(rng, n: int, res: Result) -> None:
         if key.priority != job.priority.value or key.topic != "act" or key.queue != q.name:
             res.failures.append(Failure("routing_key_wrong", f"{key} for priority {job.priority}", {"job": repr(kw)}, None))
 
+    # one long-lived processor (what a running worker has) resolving the payloads of a sequence of jobs, some of which REUSE an
+    # explicit argument-bucket id with other arguments (the bucket is legitimately overwritten by the later job)
+    for _ in range(max(2, n // 12)):
+        conn = Connection(InMemoryMessageBroker(), InMemoryBucketBroker(), InMemoryBucketBroker(use_result_bucket=True))
+        q = Queue("q1", _connection=conn)
+        await q.declare()
+        proc = _Processor(conn)
+        cons = conn.message_broker.get_consumer(q.name, None, None)
+        await cons.start()
+        for j in range(rng.randint(2, 6)):
+            args = {f"a{i}": gen_value() for i in range(rng.randint(1, 3))}
+            args["round"] = j
+            bucket = rng.random() < 0.8
+            kw = {}
+            if bucket and rng.random() < 0.7:
+                kw["args_id"] = rng.choice(["shared-1", "shared-2"])
+            try:
+                job = Job("act", queue=q, args=args, use_args_bucketer=bucket, _connection=conn, **kw)
+            except Exception:  # noqa: BLE001
+                res.count("e2e:job_rejected_at_construction")
+                continue
+            res.count("e2e:jobs_through_one_processor")
+            key, sent_args, params = await job.enqueue()
+            try:
+                key2, payload2, params2 = await asyncio.wait_for(cons.consume(), 0.05)
+            except asyncio.TimeoutError:
+                res.failures.append(Failure("enqueued_message_not_receivable", "consume() returned nothing after enqueue", {"job": repr(kw)}, None))
+                break
+            got = await proc.get_payload(payload2)
+            res.add_case(repr(("one_processor", j, kw, bucket)), "args_id" in kw)
+            if got != sent_args:
+                res.failures.append(Failure("payload_changed", f"job {j} of a sequence through one processor (args_id {kw.get('args_id')}): the "
+                                            f"consumer resolves the payload to {got!r}, the producer sent {sent_args!r}", {"job": repr(kw), "round": j}, None))
+            await conn.message_broker.ack(key2)
+
 
 def CLOCK_DT():
     return _EPOCH + timedelta(microseconds=CLOCK.now_us())
